@@ -65,11 +65,51 @@ def check(ctx):
                    "PassThrough iff neither the source nor the target path declares generic arguments", "pass-through guard changed")
         ctx.expect(("}else{%s})" % SPEC) in t, "C07.6", "mapping/index-by-source-position", fn["sp"],
                    "each source parameter ident is mapped to its own position among the SOURCE arguments (enumerate, order-preserving)", "mapping construction changed: " + t[-400:])
-    # replacer
-    expect_fn(ctx, "C07.7", "replacer", "substitutes::replace_path_params_recursively",
-              "for(P0.segments){early{!let PathArguments::AngleBracketed($)=elem(P0.segments).arguments=>continue}for(elem(P0.segments).arguments@PathArguments::AngleBracketed.0.args){early{!let GenericArgument::Type($)=elem(elem(P0.segments).arguments@PathArguments::AngleBracketed.0.args)=>continue;!let Type::Path($)=mut[elem(elem(P0.segments).arguments@PathArguments::AngleBracketed.0.args)@GenericArgument::Type.0;=TypePath::to_syn_type(Iterator::find(P1,|1|{(substitutes::get_ident_from_type_path(<self>@Type::Path.0)@v1::Some.0==C1_0.0)})@v1::Some.0.1," + ANY + ") if for(P0.segments)&&elem(P0.segments).arguments~PathArguments::AngleBracketed($)&&for(elem(P0.segments).arguments@PathArguments::AngleBracketed.0.args)&&elem(elem(P0.segments).arguments@PathArguments::AngleBracketed.0.args)~GenericArgument::Type($)&&<self>~Type::Path($)&&let v1::Some($)=substitutes::get_ident_from_type_path(<self>@Type::Path.0)&&let v1::Some((_,$))=Iterator::find(P1,|1|{(substitutes::get_ident_from_type_path(<self>@Type::Path.0)@v1::Some.0==C1_0.0)})]=>continue}{if(let v1::Some($)=substitutes::get_ident_from_type_path(<self>@Type::Path.0)){early{let v1::Some((_,$))=Iterator::find(P1,|1|{(substitutes::get_ident_from_type_path(<self>@Type::Path.0)@v1::Some.0==C1_0.0)})=>continue}'()'}else{'()'};substitutes::replace_path_params_recursively(<self>@Type::Path.0.path,P1,P2)}}}",
-              "all segments and all angle-bracketed type-path arguments are visited; an argument that is exactly a mapped ident is replaced by the resolved type (only write); "
-              "everything else is searched recursively", "scale_typegen")
+    # replacer: one guarded write, one guarded recursion, full traversal (decided on the effects and their guards, not on the spelling of the loops)
+    rf = q.fn1(P, "substitutes::replace_path_params_recursively", "scale_typegen")
+    if rf is None:
+        ctx.bad("C07.7", "missing-anchor/replacer", "", "replace_path_params_recursively not found")
+    else:
+        N = Norm(rf)
+        syms = q.syms_by_type(N, {"syn::Type": "TY"})
+        for lid, (origin, pth, pat) in N.defs.items():
+            if peel(pat.get("ty", "")) in ("syn::Type", "mut syn::Type") and origin[0] in ("let", "elem", "uninit"):
+                syms[lid] = "TY"
+        for lid, sym in list(syms.items()):
+            lt = N.local_term(lid)
+            lt = lt[2] if lt[0] == "mut" else lt
+            ctx.expect(show(lt) == "elem(elem(P0.segments).arguments@PathArguments::AngleBracketed.0.args)@GenericArgument::Type.0", "C07.7", "replacer/target", rf["sp"],
+                       "the rewritten place is the type argument itself", "the rewritten place is `%s`" % show(lt)[:200])
+        effs = q.effects(N, syms)
+        SEG = "for(P0.segments)"
+        AB = "elem(P0.segments).arguments~PathArguments::AngleBracketed($)"
+        ARGS = "for(elem(P0.segments).arguments@PathArguments::AngleBracketed.0.args)"
+        GT = "elem(elem(P0.segments).arguments@PathArguments::AngleBracketed.0.args)~GenericArgument::Type($)"
+        TP = "TY~Type::Path($)"
+        ID = "substitutes::get_ident_from_type_path(TY@Type::Path.0)"
+        FIND = "Iterator::find(P1,|1|{(%s@v1::Some.0==C1_0.0)})" % ID
+        visit = [SEG, AB, ARGS, GT, TP]
+        writes = [e for e in effs if e["kind"] in ("assign", "assignop")]
+        ok = len(writes) == 1
+        detail = "writes: %s" % [(e["name"], e["guards"]) for e in writes]
+        if ok:
+            w = writes[0]
+            rhs = show(N.term(w["node"]["r"], syms))
+            ok = w["guards"] == visit + ["let v1::Some($)=" + ID, "let v1::Some((_,$))=" + FIND] \
+                and q.term_matches(rhs, "TypePath::to_syn_type(%s@v1::Some.0.1,%s)" % (FIND, ANY))
+            detail = "the write is `%s` under %s" % (rhs[:200], w["guards"])
+        ctx.expect(ok, "C07.7", "replacer/write", rf["sp"],
+                   "the only write replaces a type-path argument that is exactly a mapped ident by that ident's resolved type", detail)
+        recs = [n for n in walk(rf["body"]) if n.get("k") == "Call" and n.get("callee") == rf["path"]]
+        ok = len(recs) == 1
+        detail = "%d recursive calls" % len(recs)
+        if ok:
+            args = [show(N.term(a, syms)) for a in recs[0]["args"]]
+            g = [e["guards"] for e in effs if e["node"] is recs[0]]
+            ok = args == ["TY@Type::Path.0.path", "P1", "P2"] and g and g[0] == visit
+            detail = "recursive call with %s under %s" % (args, g[0] if g else "?")
+        ctx.expect(ok, "C07.7", "replacer/recursion", rf["sp"],
+                   "every angle-bracketed type-path argument of every segment is searched recursively with the same mapping", detail)
     expect_fn(ctx, "C07.7", "replacer/ident-shape", "substitutes::get_ident_from_type_path",
               "if(Option::is_some(P0.qself)){v1::None}else{if(Option::is_some(P0.path.leading_colon)){v1::None}else{if((Punctuated::len(P0.path.segments)>='2')){v1::None}else{"
               "if(let v1::Some($)=Punctuated::last(P0.path.segments)){then(PathArguments::is_empty(Punctuated::last(P0.path.segments)@v1::Some.0.arguments),Punctuated::last(P0.path.segments)@v1::Some.0.ident)}"
